@@ -8,11 +8,36 @@ import sys
 import igraph
 import networkx as nx
 
-import tucan
-from tucan import canonicalization as C
-from tucan import serialization as S
-from tucan import graph_utils as GU
-from tucan.graph_attributes import PARTITION, INVARIANT_CODE, ATOMIC_NUMBER
+import importlib
+
+
+class _Lazy:
+    """A library module resolved at first use: a refactoring that moves or renames a module then shows as an
+    `ERR …` result of the operations that need it (a lost correspondence), not as a crash of every check at import."""
+
+    def __init__(self, name):
+        object.__setattr__(self, "_name", name)
+        object.__setattr__(self, "_mod", None)
+
+    def _load(self):
+        if object.__getattribute__(self, "_mod") is None:
+            object.__setattr__(self, "_mod", importlib.import_module(object.__getattribute__(self, "_name")))
+        return object.__getattribute__(self, "_mod")
+
+    def __getattr__(self, a):
+        return getattr(self._load(), a)
+
+    def __setattr__(self, a, v):
+        setattr(self._load(), a, v)
+
+
+C = _Lazy("tucan.canonicalization")
+S = _Lazy("tucan.serialization")
+GU = _Lazy("tucan.graph_utils")
+try:
+    from tucan.graph_attributes import PARTITION, INVARIANT_CODE, ATOMIC_NUMBER
+except Exception:  # the attribute names are part of the data model the tests pin; fall back to their values
+    PARTITION, INVARIANT_CODE, ATOMIC_NUMBER = "partition", "invariant_code", "atomic_number"
 
 from . import proto as P
 
@@ -174,14 +199,16 @@ def op_final(g: nx.Graph):
     def run():
         orig = nx.relabel_nodes
 
-        def spy(G, mapping, copy=True):
+        def spy(G, mapping, *a, **k):
             captured["mapping"] = dict(mapping)
-            return orig(G, mapping, copy=copy)
+            return orig(G, mapping, *a, **k)
         S.nx.relabel_nodes = spy
         try:
             r = S._assign_final_labels(g)
         finally:
             S.nx.relabel_nodes = orig
+        if "mapping" not in captured:
+            return "ERR internal-not-observable"
         return P.fields("final=" + P.show_pairs(captured["mapping"]), P.show_graph(r), "post=" + P.show_graph(g))
     return " ".join(["FINAL"] + enc), guarded(run)
 
@@ -239,8 +266,11 @@ def op_copy(g: nx.Graph):
 
 
 # ---------- parser / readers / writer ----------
-from tucan.parser import parser as TP
-from tucan.io import molfile_reader as MR, molfile_v3000_reader as V3, molfile_v2000_reader as V2, molfile_writer as MW
+TP = _Lazy("tucan.parser.parser")
+MR = _Lazy("tucan.io.molfile_reader")
+V3 = _Lazy("tucan.io.molfile_v3000_reader")
+V2 = _Lazy("tucan.io.molfile_v2000_reader")
+MW = _Lazy("tucan.io.molfile_writer")
 
 
 def op_parse(text: str):
@@ -251,6 +281,31 @@ def op_parse(text: str):
         info["graph"] = g
         return P.show_graph(g)
     return "PARSE " + P.esc(text), guarded(run), info
+
+
+def op_lex(text: str):
+    """the generated lexer alone: the token texts, or the rejection (the library's listener turns a lexer error into its
+    parser exception; here a private listener stands in for it)"""
+    def run():
+        from antlr4 import InputStream
+        from antlr4.error.ErrorListener import ErrorListener
+        from tucan.parser.tucanLexer import tucanLexer
+
+        class Reject(Exception):
+            pass
+
+        class L(ErrorListener):
+            def syntaxError(self, *a, **k):
+                raise Reject()
+        lx = tucanLexer(InputStream(text))
+        lx.removeErrorListeners()
+        lx.addErrorListener(L())
+        try:
+            toks = [t.text for t in lx.getAllTokens()]
+        except Reject:
+            return "ERR TucanParserException"
+        return P.show_str_list(toks)
+    return "LEX " + P.esc(text), guarded(run)
 
 
 def op_v3000(lines: list[str]):
